@@ -1,7 +1,9 @@
 #!/bin/bash
+# usage: tools_refactor_all.sh [glob, e.g. "*3-*"]
 # dev helper: run every check with --src on every scratch tree /tmp/rf/<G>-<r> (see tools_refactor_trees.sh); prints false alarms
 cd /verif
-for D in /tmp/rf/*; do
+PAT=${1:-*}
+for D in /tmp/rf/$PAT; do
   echo "### $(basename $D)"
   for p in $(seq -f "C%02g" 1 20); do ./check $p --src $D --no-evidence 2>&1 | grep -E "^VIOLATION|does not build|Traceback|Error" | cut -c1-300 | sed "s/^/$p: /"; done
 done
